@@ -14,6 +14,10 @@ pub mod maphist;
 pub mod model;
 pub mod noheap;
 pub mod panicsafe;
+#[cfg(feature = "serde")]
+pub mod serde_rec;
+#[cfg(feature = "serde")]
+pub mod serdeeng;
 pub mod sethist;
 
 pub use support::{alloc, args, elems, fault, frame, ledger, report, rng};
